@@ -200,10 +200,26 @@ func (c *Ctx) SignaturePolarity() []core.Ob {
 				for _, in := range b.Instrs {
 					if r, ok := in.(*ssa.Return); ok {
 						v := r.Results[0]
-						if v == calls[0].Value() {
-							continue
+						var verdictOrFalse func(v ssa.Value, d int) bool
+						verdictOrFalse = func(v ssa.Value, d int) bool {
+							if v == calls[0].Value() {
+								return true
+							}
+							if kc, ok := v.(*ssa.Const); ok && kc.Value != nil && kc.Value.String() == "false" {
+								return true
+							}
+							// cond && VerifySignature(..): false on the edge where cond failed, the verdict otherwise
+							if phi, ok := v.(*ssa.Phi); ok && d < 3 {
+								for _, e := range phi.Edges {
+									if !verdictOrFalse(e, d+1) {
+										return false
+									}
+								}
+								return true
+							}
+							return false
 						}
-						if kc, ok := v.(*ssa.Const); ok && kc.Value != nil && kc.Value.String() == "false" {
+						if verdictOrFalse(v, 0) {
 							continue
 						}
 						p.Status, p.Got = core.Violated, "a return of PublicKey.Verify is neither VerifySignature's verdict nor false"
@@ -444,6 +460,26 @@ func (c *Ctx) RCONPolarity() []core.Ob {
 				case ssa.CallInstruction:
 					if strings.HasSuffix(calleeName(x.Common()), "net.(RCONConn).WritePacket") && len(x.Common().Args) > 1 {
 						oc.ids = append(oc.ids, eval(x.Common().Args[1]))
+					} else if g := x.Common().StaticCallee(); g != nil && g.Parent() == fn {
+						// a local closure that sends the reply: the id it passes on is one of its parameters
+						for _, wc := range callsIn(g, func(n string, _ *ssa.CallCommon) bool { return strings.HasSuffix(n, "net.(RCONConn).WritePacket") }) {
+							if len(wc.Common().Args) < 2 {
+								continue
+							}
+							idArg := wc.Common().Args[1]
+							bound := false
+							for j, p := range g.Params {
+								if idArg == ssa.Value(p) && j < len(x.Common().Args) {
+									oc.ids = append(oc.ids, eval(x.Common().Args[j]))
+									bound = true
+								}
+							}
+							if !bound {
+								if k, ok := constIntVal(idArg); ok {
+									oc.ids = append(oc.ids, AV{P: ivOf(k, k)})
+								}
+							}
+						}
 					}
 				case *ssa.Return:
 					if !cmpV.Block().Dominates(x.Block()) || len(x.Results) == 0 {
